@@ -154,7 +154,12 @@ namespace Dune
       friend constexpr IntegralRangeIterator operator+(difference_type n, const IntegralRangeIterator &a) noexcept { return IntegralRangeIterator(a.value_ + n); }
       friend constexpr IntegralRangeIterator operator-(const IntegralRangeIterator &a, difference_type n) noexcept { return IntegralRangeIterator(a.value_ - n); }
 
-      constexpr difference_type operator-(const IntegralRangeIterator &other) const noexcept { return (static_cast<difference_type>(value_) - static_cast<difference_type>(other.value_)); }
+      constexpr difference_type operator-(const IntegralRangeIterator &other) const noexcept
+      {
+        // subtract in the unsigned type (wraps, never overflows) and read the result as the signed distance
+        using unsigned_type = std::make_unsigned_t<T>;
+        return static_cast<difference_type>(static_cast<unsigned_type>(static_cast<unsigned_type>(value_) - static_cast<unsigned_type>(other.value_)));
+      }
 
     private:
       value_type value_;
